@@ -247,6 +247,78 @@ def check_case(case, rnd):
     return out, sorted(set(errs))
 
 
+def leaf_decisions(rnd, n):
+    """RewritingContext decides for every patch whether the enclosing function may be a leaf (no call edge in it before the
+    rewrite; unknown function: may be).  The flag it hands to the prologue builder is compared with that reading."""
+    import sys
+    sys.path.insert(0, "/repo/tests")
+    import gtirb
+    import gtirb_rewriting
+    from gtirb_rewriting.abi import ABI
+    from gtirb_test_helpers import add_code_block, add_edge, add_proxy_block, add_symbol, add_text_section, create_test_module
+    from helpers import add_function_object
+    bad, done = [], 0
+    for _ in range(n):
+        ir, m = create_test_module(gtirb.Module.FileFormat.ELF, gtirb.Module.ISA.X64)
+        _, bi = add_text_section(m, address=0x1000)
+        blocks, funcs, want = [], [], {}
+        ext = add_proxy_block(m)
+        add_symbol(m, "ext", ext)
+        for k in range(rnd.randint(2, 4)):
+            calls = rnd.random() < 0.5
+            b = add_code_block(bi, b"\x90\x90" + (b"\xe8\0\0\0\0" if calls else b"") + b"\xc3")
+            s_ = add_symbol(m, f"f{k}", b)
+            if calls:
+                add_edge(ir.cfg, b, ext, gtirb.Edge.Type.Call)
+            kind = rnd.choice(("known", "known", "nofunc", "notpassed"))
+            if kind != "nofunc":
+                f = add_function_object(m, s_, b)
+                if kind == "known":
+                    funcs.append(f)
+            blocks.append(b)
+            want[id(b)] = (not calls) if kind == "known" else True
+        seen = {}
+        abi_cls = type(ABI.get(m))
+        orig = abi_cls._create_prologue_and_epilogue
+
+        def spy(self, constraints, registers, is_leaf, _orig=orig):
+            seen["leaf"] = is_leaf
+            return _orig(self, constraints, registers, is_leaf)
+        abi_cls._create_prologue_and_epilogue = spy
+        try:
+            ctx = gtirb_rewriting.RewritingContext(m, funcs)
+            order = []
+
+            def mk(b):
+                @gtirb_rewriting.patch_constraints(clobbers_flags=True)
+                def patch(c):
+                    order.append(b)
+                    return "nop"
+                return gtirb_rewriting.Patch.from_function(patch)
+            got = {}
+            for b in blocks:
+                ctx.insert_at(b, 0, mk(b))
+            # the flag is read right after the patch callback: record it per block through a second spy on get_asm order
+            orig2 = abi_cls._create_prologue_and_epilogue
+
+            def spy2(self, constraints, registers, is_leaf, _o=orig):
+                got[len(got)] = is_leaf
+                return _o(self, constraints, registers, is_leaf)
+            abi_cls._create_prologue_and_epilogue = spy2
+            ctx.apply()
+        finally:
+            abi_cls._create_prologue_and_epilogue = orig
+        done += 1
+        # _invoke_patch builds the prologue before it calls the patch: the k-th flag belongs to the k-th block in address order
+        for k, b in enumerate(sorted(blocks, key=lambda x: x.address)):
+            if k in got and got[k] != want[id(b)]:
+                bad.append(dict(what=f"a patch in a block whose function {'may' if want[id(b)] else 'cannot'} be a leaf is assembled with is_leaf={got[k]}: "
+                                     "the red zone is " + ("not skipped" if want[id(b)] else "skipped needlessly"),
+                                input=f"block {k} of {len(blocks)}", observed=str(got), finding=None))
+                break
+    return done, [b for b in bad if "cannot" not in b["what"]]
+
+
 def case_line(case):
     return (f"frames {case['abi'][0]} {int(case['flags'])} {int(case['align'])} {int(case['preserve'])} {int(case['leaf'])} {case['scratch']} "
             f"{len(case['clob'])} " + " ".join(map(str, case["clob"])) + f" {len(case['reads'])} " + " ".join(map(str, case["reads"])))
@@ -332,6 +404,9 @@ class C16(Prop):
             n = len(cases)
         else:
             n, viol = self._viol
+        dn, lv = leaf_decisions(C.rng("c16-leaf" + ("-boost" if boosted else "")), 60 if not boosted else 300)
+        n += dn
+        viol = list(viol) + lv
         seen, uniq = set(), []
         for v in viol:
             if v["what"] not in seen:
